@@ -13,6 +13,7 @@ from fractions import Fraction
 from typing import Any, Dict, List, Optional
 
 from rpv import families
+from rpv.checks.inproc_util import candidate_days, clean_cut
 from rpv.gen import ASSETS, EXCHANGES, HOLDERS, METHODS, dstr, fmt_ts, parse_ts
 from rpv.model import Model
 from rpv.oracle.balance import overdraft
@@ -35,7 +36,7 @@ ASSUMPTIONS = [
     "amounts have <= 11 decimals so sums are compared exactly",
 ]
 SETTINGS: Dict[str, Dict[str, Any]] = {
-    "quick": {"cases": 1500, "cli_cases": 48, "budget_s": 50, "minimums": {"corpus_runs": 100, "must_fail_observed": 150, "sell_all_observed": 300, "multi_lot_events": 1000, "cli_runs": 6}},
+    "quick": {"cases": 1500, "cli_cases": 48, "budget_s": 50, "minimums": {"corpus_runs": 100, "runs_with_to_date": 1500, "inverted_to_date_runs_succeeded": 100, "must_fail_observed": 150, "sell_all_observed": 300, "multi_lot_events": 1000, "cli_runs": 6}},
     "thorough": {"cases": 80000, "cli_cases": 300, "budget_s": 420, "minimums": {"corpus_runs": 100, "must_fail_observed": 8000, "sell_all_observed": 15000, "multi_lot_events": 50000, "cli_runs": 150}},
 }
 
@@ -75,15 +76,20 @@ def sell_everything(hist: Dict[str, Any]) -> Optional[Dict[str, Any]]:
     return h if added else None
 
 
-def _run_one(ctx: Any, ip: Any, family: str, hist: Dict[str, Any], sched: Dict[int, str], mode: str, allow_negative: bool = False) -> None:
+def _run_one(ctx: Any, ip: Any, family: str, hist: Dict[str, Any], sched: Dict[int, str], mode: str, allow_negative: bool = False, to_s: Optional[str] = None) -> None:
     from rpv.drive_inproc import trace_of
 
     model = Model(hist)
     lot_over = model.overspend_instant()
     od = overdraft(model)
-    res = ip.run(hist, sched, allow_negative=allow_negative)
+    from datetime import date as _date
+
+    to_d = _date.fromisoformat(to_s) if to_s else None
+    res = ip.run(hist, sched, allow_negative=allow_negative, to_date=to_d)
     ctx.count("executions")
-    case = {"hist": hist, "schedule": {str(k): v for k, v in sched.items()}, "mode": mode, "allow_negative": allow_negative}
+    if to_d:
+        ctx.count("runs_with_to_date")
+    case = {"hist": hist, "schedule": {str(k): v for k, v in sched.items()}, "mode": mode, "allow_negative": allow_negative, "to": to_s}
     ctx.tag("tag_mode", mode)
     if lot_over is not None:
         ctx.count("must_fail_observed")
@@ -103,7 +109,12 @@ def _run_one(ctx: Any, ip: Any, family: str, hist: Dict[str, Any], sched: Dict[i
             ctx.count("rejected_for_account_overdraft")
         return
     trace = trace_of(res.computed)
-    violations = check_coverage(model, trace, complete=True)
+    if to_d is not None and not clean_cut(hist, to_d):
+        # which rows a cut between inverted own dates keeps is KF1 (C10); that the run succeeds is what is decided here
+        ctx.count("inverted_to_date_runs_succeeded")
+        violations = check_coverage(model, trace, complete=False)
+    else:
+        violations = check_coverage(model, trace, complete=True, up_to=to_d)
     per_event: Dict[int, int] = {}
     for f in trace:
         if f.lot is not None:
@@ -147,6 +158,10 @@ def run_shard(ctx: Any) -> None:
                 _run_one(ctx, ip, family, hist, sched, "valid" if valid else "as-generated")
             if not valid:
                 continue
+            # the same valid history limited by a to-date (matching still covers all history): must succeed, shown events fully covered
+            days = candidate_days(rng, hist, 3)
+            for d in days[:2]:
+                _run_one(ctx, ip, family, hist, rng.choice(schedules), "valid-to-date", to_s=d.isoformat())
             # sell-everything extension
             extended = sell_everything(hist)
             if extended is not None:
@@ -160,6 +175,12 @@ def run_shard(ctx: Any) -> None:
                 sched = rng.choice(schedules)
                 _run_one(ctx, ip, family, mutant, sched, "overspend-mutant", allow_negative=False)
                 _run_one(ctx, ip, family, mutant, sched, "overspend-mutant-n", allow_negative=True)
+        if index % 5 == 0:
+            hist, to_s = families.lot_after_cut_needed(rng)
+            if overdraft(Model(hist)).must_accept and Model(hist).overspend_instant() is None:
+                for method in METHODS:
+                    _run_one(ctx, ip, "lot-after-cut-needed", hist, {1970: method}, "valid-to-date", to_s=to_s)
+                _run_one(ctx, ip, "lot-after-cut-needed", hist, {1970: rng.choice(METHODS)}, "valid")
         index += ctx.nshards
         done += 1
     ctx.count("inputs", done)
@@ -184,7 +205,7 @@ def replay(ctx: Any, case: Dict[str, Any]) -> None:
         cli_slices.c02_replay(ctx, case)
         return
     ip = InProc(ctx.scratch, EXCHANGES, HOLDERS, ASSETS)
-    _run_one(ctx, ip, "replay", case["hist"], {int(k): v for k, v in case["schedule"].items()}, case.get("mode", "valid"), case.get("allow_negative", False))
+    _run_one(ctx, ip, "replay", case["hist"], {int(k): v for k, v in case["schedule"].items()}, case.get("mode", "valid"), case.get("allow_negative", False), to_s=case.get("to"))
 
 
 def coverage(merged: Dict[str, Any], tier: str) -> Dict[str, Any]:
